@@ -45,6 +45,12 @@ CORPUS = [
     "const sy = Symbol('x'); const o: any = {[sy]: 1, [Symbol.iterator]: function* () { yield 1; }, [Symbol.toPrimitive]() { return 2; }}; [...o].length + (+o) + Object.getOwnPropertySymbols(o).length",
     "const xs = Array.from({length: 4}, (_, i) => ({i})); const ys = Array.from(new Set(xs), o => o.i); const zs = xs.toSorted((a, b) => b.i - a.i); Object.assign({}, ...xs, 'ab').i + Object.entries({...zs[0]}).length + ys.length",
     "class A { static s = 1; #p = 2; get x() { return this.#p; } static make() { return new this(); } } class B extends A { get x() { return super.x + 1; } } B.make().x + B.s + String(new Error('e', {cause: 1})).length",
+    # a large peak: tens of thousands of objects reachable at once, then all dropped (the pools and free lists of the collector see a burst)
+    "const big: any[] = []; for (let i = 0; i < 6000; i++) { big.push({i}); } big.length",
+    "const big: any[] = []; for (let i = 0; i < 24000; i++) { big.push({i}); } big.length",
+    "const big: any[] = []; for (let i = 0; i < 24000; i++) { const o: any = {i}; o.self = o; big.push(o); } throw new Error('after ' + big.length);",
+    "let head: any = null; for (let i = 0; i < 30000; i++) { head = {next: head}; } let n = 0; for (let c = head; c; c = c.next) { n++; } n",
+    "const m = new Map(); for (let i = 0; i < 9000; i++) { m.set({k: i}, [i]); } const s = new Set([...m.keys()]); s.size + m.size",
 ]
 
 
@@ -57,6 +63,11 @@ def run(ctx):
     lines = []
     for i, (src, _) in enumerate(progs):
         gc = rng.choice([None, 1, 3, 100])
+        if "big" in src[:12] or "30000" in src or "9000" in src:
+            # large peaks run at the default threshold only (a collection per allocation over tens of thousands of live objects is quadratic)
+            runs = [{"src": src, "mode": "eval", "trace": False, "collect_every": None} for k in range(8)]
+            lines.append(json.dumps({"gc": None, "runs": runs}))
+            continue
         runs = [{"src": src, "mode": "steps" if (i % 3) else "eval", "trace": (k == 1 and i % 3 != 0), "collect_every": (7 if i % 5 == 0 else None)} for k in range(8)]
         lines.append(json.dumps({"gc": gc, "runs": runs}))
     got = common.harness(["life"], lines, timeout=900)
